@@ -4,8 +4,8 @@ import UmProofs.BrokerScaleBasic
 
 `findEntry`, `removeFirstImporting`, `commitDst` in terms of list decompositions.
 -/
-namespace Um.Broker
-open Um Um.Slots
+namespace Um.Broker.Scale
+open Um Um.Slots Um.Broker
 
 /-! ## list utilities -/
 
@@ -238,4 +238,4 @@ theorem Store.findCluster_setCluster {s : Store} {name : String} {cl cl' : Clust
 @[simp] theorem Store.setCluster_failed (s : Store) (c : Cluster) : (s.setCluster c).failed = s.failed := rfl
 @[simp] theorem Store.setCluster_failures (s : Store) (c : Cluster) : (s.setCluster c).failures = s.failures := rfl
 
-end Um.Broker
+end Um.Broker.Scale
